@@ -239,7 +239,7 @@ func C05(c *core.Ctx) {
 			if len(stores) == 0 {
 				c.Und("R5.1", "unset-store:"+tn, p.Pos(fn.Pos()), "no strategy=nil store found in UnSetStrategyEnc")
 			} else {
-				res := core.Gate(fn, stores, neg(root))
+				res := core.GateDeep(fn, stores, neg(root))
 				c.Decide(res.OK && res.PassEdges > 0, "R5.1", "root-strategy-not-unsettable:"+tn, c.Pos(stores[0]),
 					"strategy=nil is unreachable for the empty name",
 					tn+".UnSetStrategyEnc can clear the root entry's strategy (no len(name)==0 guard): afterwards strategy lookups return nil for names without a more specific choice")
@@ -257,7 +257,7 @@ func C05(c *core.Ctx) {
 					eff = append(eff, in)
 				}
 			})
-			res := core.Gate(fn, eff, pos(atomLenFieldPositive("nexthops", nil)))
+			res := core.GateDeep(fn, eff, pos(atomLenFieldPositive("nexthops", nil)))
 			c.Decide(len(eff) > 0 && res.OK && res.PassEdges > 0, "R5.2", "nexthop-result-from-nonempty-entry:"+tn, p.Pos(fn.Pos()),
 				"a non-nil result is produced only on the edge asserting len(entry.nexthops) > 0",
 				tn+".FindNextHopsEnc can answer from an entry without next hops (the walk towards shorter prefixes stops too early); path: "+p.PathString(res.Path))
@@ -265,7 +265,7 @@ func C05(c *core.Ctx) {
 		if fn := delegate(p.MethodOf(t, "FindStrategyEnc")); fn != nil && fn.Blocks != nil {
 			c.Funcs[core.FuncName(fn)] = true
 			eff := producers(fn, isNilOrEmpty)
-			res := core.Gate(fn, eff, pos(atomAnyFieldNotNil("strategy", nil)))
+			res := core.GateDeep(fn, eff, pos(atomAnyFieldNotNil("strategy", nil)))
 			c.Decide(len(eff) > 0 && res.OK && res.PassEdges > 0, "R5.2", "strategy-result-from-entry-with-strategy:"+tn, p.Pos(fn.Pos()),
 				"a non-nil result is produced only on the edge asserting entry.strategy != nil",
 				tn+".FindStrategyEnc can answer from an entry that has no strategy; path: "+p.PathString(res.Path))
@@ -292,7 +292,7 @@ func C05(c *core.Ctx) {
 			} else {
 				a = atomAnyFieldNotNil("strategy", nil)
 			}
-			res := core.Gate(fn, apps, pos(a))
+			res := core.GateDeep(fn, apps, pos(a))
 			c.Decide(len(apps) > 0 && res.OK && res.PassEdges > 0, "R5.2", "listing-filter:"+tn+"."+lst[0], p.Pos(fn.Pos()),
 				"entries are listed only under "+a.Name,
 				tn+"."+lst[0]+" lists entries that hold no "+lst[1])
@@ -334,7 +334,7 @@ func C05(c *core.Ctx) {
 					}
 				}
 			})
-			res := core.Gate(fn, eff, pos(eq))
+			res := core.GateDeep(fn, eff, pos(eq))
 			c.Decide(len(eff) > 0 && res.OK && res.PassEdges > 0, "R5.4", "acts-on-matching-face:"+tn+"."+m, p.Pos(fn.Pos()),
 				"the existing-entry update/removal is reachable only on the edge asserting entry.Nexthop == nexthop",
 				tn+"."+m+" can update/remove a next hop whose face id differs from the argument")
@@ -491,7 +491,7 @@ func C05(c *core.Ctx) {
 	// this is the guard that protects the root strategy today.
 	nUnset := 0
 	for _, fn := range p.Funcs() {
-		for _, ci := range core.FindCalls(fn, core.CalleeID{Pkg: "fw/table", Recv: "FibStrategy", Name: "UnSetStrategyEnc"}) {
+		for _, ci := range core.FindCallsDeep(fn, core.CalleeID{Pkg: "fw/table", Recv: "FibStrategy", Name: "UnSetStrategyEnc"}) {
 			nUnset++
 			c.Funcs[core.FuncName(fn)] = true
 			_, a := core.CallArgs(ci.Common())
@@ -514,7 +514,7 @@ func C05(c *core.Ctx) {
 				}
 				return 0, 0
 			}}
-			res := core.Gate(fn, []ssa.Instruction{ci}, neg(empty))
+			res := core.GateDeep(fn, []ssa.Instruction{ci}, neg(empty))
 			c.Decide(res.OK && res.PassEdges > 0, "R5.1", "unset-caller-rejects-root:"+core.FuncName(fn), c.Pos(ci),
 				"UnSetStrategyEnc is unreachable with an empty name",
 				core.FuncName(fn)+" can call UnSetStrategyEnc with the empty name: the root strategy can be unset")
@@ -615,7 +615,7 @@ func C05(c *core.Ctx) {
 		}
 		name := ssa.Value(fn.Params[1])
 		var rec []ssa.Instruction
-		for _, ci := range core.FindCalls(fn, core.CalleeID{Pkg: "fw/table", Recv: "fibStrategyTreeEntry", Name: fnm}) {
+		for _, ci := range core.FindCallsDeep(fn, core.CalleeID{Pkg: "fw/table", Recv: "fibStrategyTreeEntry", Name: fnm}) {
 			rec = append(rec, ci)
 		}
 		compEq := &core.Atom{Name: "name[child.depth-1]==child.component", Match: func(cond ssa.Value) (int, int) {
@@ -658,7 +658,7 @@ func C05(c *core.Ctx) {
 			}
 			return 0, 0
 		}}
-		res := core.Gate(fn, rec, pos(compEq))
+		res := core.GateDeep(fn, rec, pos(compEq))
 		c.Decide(len(rec) > 0 && res.OK && res.PassEdges > 0, "R5.4", "tree-descent-compares-component:"+fnm, p.Pos(fn.Pos()),
 			"descent recurses only into a child whose component equals the name's component at child.depth-1",
 			"the name-tree descent can enter a child whose component was not compared (or compared at the wrong depth) with the looked-up name")
